@@ -11,3 +11,5 @@ import BalmProofs.Props.C05
 #print axioms Balm.Impl.nodeSeeds_spec
 #print axioms Balm.Impl.reaches_attr
 #print axioms Balm.Impl.judgeWeak_sound
+#print axioms Balm.Impl.weak_complete_leaves
+#print axioms Balm.Impl.exists_min_inside
